@@ -442,6 +442,7 @@ def rule_load_keeps_record(ctx) -> None:
             wfields |= {const_str(k) for k in x.value.keys if k is not None and const_str(k)}
     ctx.floor("C06.TABLE", "fields of the edge record built by the snapshot normaliser", len(wfields), 4)
     set_by: Dict[str, Set[str]] = {}
+    key_forms: Dict[str, Set[str]] = {}
     n_loops = 0
     # sibling re-keying loops: the writer's (before the payload is serialised) and the boot loader's
     hosts = [f for f in ctx.prog.module(SNAP).funcs.values()
@@ -449,15 +450,84 @@ def rule_load_keeps_record(ctx) -> None:
              and any(isinstance(c, ast.Call) and call_tail(c) in ("_sanitize_gel_for_write", "_sanitize_gel_for_load") for c in walk_no_defs(f.node)) and f.qual != w.qual]
     for ld in sorted(hosts, key=lambda f: f.qual):
         ctx.analysed_funcs.add(ld.qual)
-        n_loops += _rekey_loops(ctx, ld, wfields, set_by)
+        n_loops += _rekey_loops(ctx, ld, wfields, set_by, key_forms)
     ctx.floor("C06.TABLE", "re-keying loops over the edge map (writer + loader)", n_loops, 2)
     vals = list(set_by.values())
     ctx.check(len(vals) >= 2 and all(v == vals[0] for v in vals), "C06.TABLE", f"{SNAP}/rekey-siblings-set-the-same-fields", "clematis/engine/snapshot.py",
               f"the writer's and the loader's re-keying loops set the same fields ({sorted(vals[0]) if vals else []})",
               f"the re-keying loops disagree on the fields they set: { {k.split(':')[-1]: sorted(v) for k, v in set_by.items()} }")
+    kf = list(key_forms.values())
+    diff = sorted(set().union(*kf) - set.intersection(*kf)) if kf else []
+    ctx.check(len(kf) >= 2 and not diff, "C06.TABLE", f"{SNAP}/rekey-siblings-derive-the-same-key", "clematis/engine/snapshot.py",
+              f"the writer's and the loader's re-keying loops decide a record's key from the same inputs ({sorted(kf[0]) if kf else []})",
+              f"the re-keying loops do not decide a record's key from the same inputs - only one of them looks at {diff}: edges the writer keeps apart the loader folds together (or the reverse), "
+              "so the loaded edge map is not the written one and re-snapshotting the loaded state gives a different body")
 
 
-def _rekey_loops(ctx, ld: Func, wfields: Set[str], set_by: Dict[str, Set[str]]) -> int:
+def _key_forms(ctx, ld: Func, lp: ast.For, recs: Set[str], sink_maps: Set[str], key_forms: Dict[str, Set[str]]) -> None:
+    """what decides the key a record is filed under in this re-keying loop: for every store `sink[K'] = ...` the inputs read by
+    the reaching definitions of K' (inlined) and by the store's guards inside the loop, with the loop's own names replaced by
+    roles - K the incoming key, R.<field> a field of the record, M the map being filled.  Compared between the sibling loops
+    as sets of inputs, not as expressions, so that either loop can be rewritten freely as long as it looks at the same things."""
+    import builtins
+    cfg = ctx.cfg(ld)
+    rd = ctx.rd(ld)
+    ktarget = lp.target.elts[0].id if isinstance(lp.target.elts[0], ast.Name) else None
+
+    def atoms(e: ast.AST, at) -> Set[str]:
+        e = rd.inline(e, at, stop=set(recs) | {ktarget or ""} | set(sink_maps))
+        out: Set[str] = set()
+        consumed = set()
+        for x in ast.walk(e):
+            f = None
+            if isinstance(x, ast.Call) and isinstance(x.func, ast.Attribute) and x.func.attr == "get" and isinstance(x.func.value, ast.Name) and x.func.value.id in recs and x.args:
+                f = const_str(x.args[0]) or "<computed>"
+                consumed.add(id(x.func.value))
+            elif isinstance(x, ast.Subscript) and isinstance(x.value, ast.Name) and x.value.id in recs:
+                f = const_str(x.slice) or "<computed>"
+                consumed.add(id(x.value))
+            if f:
+                out.add(f"R.{f}")
+        for x in ast.walk(e):
+            if isinstance(x, ast.Name) and isinstance(x.ctx, ast.Load) and id(x) not in consumed:
+                if x.id == ktarget:
+                    out.add("K")
+                elif x.id in recs:
+                    out.add("R")
+                elif x.id in sink_maps:
+                    out.add("M")
+                elif not hasattr(builtins, x.id):
+                    out.add(x.id)
+        return out
+
+    forms = key_forms.setdefault(ld.qual, set())
+    inside = {id(y) for y in ast.walk(lp)}
+    for st in lp.body:
+        for x in walk_no_defs(st):
+            if not (isinstance(x, ast.Assign) and any(isinstance(t, ast.Subscript) and isinstance(t.value, ast.Name) and t.value.id in sink_maps for t in x.targets)):
+                continue
+            ns = cfg.node_containing(x)
+            if not ns:
+                continue
+            n = ns[0]
+            for test, pol, b in cfg.guards(n):
+                if id(test) in inside:
+                    forms |= {"guard:" + a for a in atoms(test, b)}
+            for t in x.targets:
+                if isinstance(t, ast.Subscript) and isinstance(t.value, ast.Name) and t.value.id in sink_maps:
+                    k = t.slice
+                    if isinstance(k, ast.Name) and k.id != ktarget and k.id not in recs:
+                        for d in rd.reaching(k.id, n):
+                            forms |= {"key:" + a for a in (atoms(d.value, d.node) if d.value is not None else {f"<{d.kind}>"})}
+                            # a definition of the key that is itself conditional: its guards decide the key too
+                            for test, pol, b in cfg.guards(d.node):
+                                if id(test) in inside:
+                                    forms |= {"key:" + a for a in atoms(test, b)}
+                    else:
+                        forms |= {"key:" + a for a in atoms(k, n)}
+
+
+def _rekey_loops(ctx, ld: Func, wfields: Set[str], set_by: Dict[str, Set[str]], key_forms: Dict[str, Set[str]]) -> int:
     n_loops = 0
     for lp in [x for x in walk_no_defs(ld.node) if isinstance(x, ast.For)]:
         if not (isinstance(lp.iter, ast.Call) and call_tail(lp.iter) == "items" and isinstance(lp.target, ast.Tuple) and len(lp.target.elts) == 2 and isinstance(lp.target.elts[1], ast.Name)):
@@ -509,6 +579,7 @@ def _rekey_loops(ctx, ld: Func, wfields: Set[str], set_by: Dict[str, Set[str]]) 
                 if isinstance(x, ast.Call) and isinstance(x.func, ast.Attribute) and x.func.attr in ("update", "pop", "clear", "setdefault", "popitem") and isinstance(x.func.value, ast.Name) and x.func.value.id in recs:
                     over.append((f".{x.func.attr}()", x))
         set_by.setdefault(ld.qual, set()).update(fields_set)
+        _key_forms(ctx, ld, lp, recs, sink_maps, key_forms)
         key = ctx.okey(f"{ld.qual}/rekey-keeps-persisted-fields")
         if over:
             f, node = over[0]
